@@ -155,10 +155,11 @@ def run(ctx):
     hs_ow = sg.overwrite_histories(ctx.rng, 48 if ctx.quick else 500)
     hs_ms = sg.multistudy_histories(ctx.rng, 48 if ctx.quick else 500)
     hs_ms += sg.compat_histories(ctx.rng, 60 if ctx.quick else 384)
+    hs_ms += sg.delete_histories(ctx.rng, 30 if ctx.quick else 300)
     plan = []
     for c in sd.CONFIGS:
         if c in sd.SLOW:
-            plan.append((c, hs_rand[:n_slow] + hs_tlc[:n_tlc_slow] + hs_ow[: len(hs_ow) // 3] + hs_ms[: len(hs_ms) // 3]))
+            plan.append((c, hs_rand[:n_slow] + hs_tlc[:n_tlc_slow] + hs_ow[::3] + hs_ms[::3]))      # every third history of every family
         else:
             plan.append((c, hs_rand + hs_tlc + hs_ow + hs_ms))
         plan.append((c, [{"hid": "K6-nan-template-value", "ops": K6_OPS}]))
